@@ -139,6 +139,7 @@ class Translator:
         self.input_set = {}
         self.arr_counter = 0
         self.calls = set()
+        self.struct_arrays = {}
 
     # ---- naming
     def fresh(self, base):
@@ -149,7 +150,7 @@ class Translator:
 
     def let(self, base, sym):
         """bind a compound expression to a name; atoms are returned unchanged"""
-        if sym.atom or sym.kind in ("ptr", "func", "void") or is_conc(sym):
+        if sym.atom or sym.kind in ("ptr", "sptr", "func", "void") or is_conc(sym):
             return sym
         nm = self.fresh(base)
         if sym.kind == "bool":
@@ -170,7 +171,10 @@ class Translator:
     def load(self, st, aid, idx):
         cells = st.mem.get(aid)
         if cells is None:
-            raise Refuse("use of an array outside its scope (%s)" % aid)
+            if aid in st.meta and st.meta[aid].get("structfield"):
+                cells = st.mem[aid] = {}
+            else:
+                raise Refuse("use of an array outside its scope (%s)" % aid)
         if idx in cells:
             return cells[idx]
         meta = st.meta[aid]
@@ -185,11 +189,39 @@ class Translator:
         if key not in self.input_set:
             nm = "%s_%d" % (meta["name"], idx) if meta.get("isarray", True) else meta["name"]
             self.input_set[key] = Sym(meta["elem"], nm, True)
-            self.inputs.append((meta["porder"], idx, nm, meta["elem"]))
+            po = meta["porder"] if isinstance(meta["porder"], tuple) else (meta["porder"],)
+            self.inputs.append((po, idx, nm, meta["elem"], self.cpath(meta, idx)))
         return self.input_set[key]
+
+    @staticmethod
+    def cpath(meta, idx):
+        po = meta["porder"] if isinstance(meta["porder"], tuple) else (meta["porder"],)
+        if "structfield" in meta:
+            e, field, isarr = meta["structfield"]
+            return "p%d[%d].%s%s" % (po[0], e, field, "[%d]" % idx if isarr else "")
+        return "p%d[%d]" % (po[0], idx) if meta.get("isarray", True) else "p%d" % po[0]
+
+    def struct_field(self, st, sp, field, qual):
+        """array backing `param[elem].field` (created on first use)"""
+        pname, elem, pi, const = sp
+        key = ("sf", pname, elem, field)
+        if key in self.struct_arrays:
+            return self.struct_arrays[key]
+        shape = self.array_shape(qual)
+        kind = self.elem_kind(qual)
+        aid = self.new_array(st, "%s%d_%s" % (pname, elem, field), kind, shape if len(shape) > 1 else (), param=True, const=const)
+        st.meta[aid]["porder"] = (pi, elem, field)
+        st.meta[aid]["isarray"] = bool(shape)
+        st.meta[aid]["structfield"] = (elem, field, bool(shape))
+        st.meta[aid]["flatshape"] = shape
+        self.struct_arrays[key] = aid
+        # make the array visible in every live state copy: arrays are looked up in st.mem, so register lazily
+        return aid
 
     def store(self, st, aid, idx, sym):
         meta = st.meta[aid]
+        if aid not in st.mem and meta.get("structfield"):
+            st.mem[aid] = {}
         if meta["const"] and meta["param"]:
             raise Refuse("write through const parameter %s" % meta["name"])
         if sym.kind != meta["elem"]:
@@ -243,6 +275,13 @@ class Translator:
             return "int"
         raise Refuse("unsupported element type %r" % qual)
 
+    STRUCTS = ("mjPreContact", "mjContact")
+
+    @staticmethod
+    def struct_name(qual):
+        base = re.sub(r"[\*\[\]0-9 ]", "", qual.replace("const", "").replace("restrict", "").replace("__restrict", "").replace("struct", ""))
+        return base if base in Translator.STRUCTS else None
+
     @staticmethod
     def array_shape(qual):
         return tuple(int(x) for x in re.findall(r"\[(\d+)\]", qual))
@@ -268,6 +307,9 @@ class Translator:
                 raise Refuse("array index is not a compile-time constant")
             bq = base.get("type", {}).get("qualType", "")
             b = self.rvalue(base, st, env)
+            if b.kind == "sptr":
+                pname, elem, pi, const = b.v
+                return ("struct", (pname, elem + i.v, pi, const), ())
             if b.kind != "ptr" or b.v is None:
                 raise Refuse("subscript of a non-pointer")
             aid, off, shape = b.v
@@ -279,12 +321,30 @@ class Translator:
             return (aid, off + i.v, ())
         if k == "UnaryOperator" and n["opcode"] == "*":
             p = self.rvalue(n["inner"][0], st, env)
+            if p.kind == "sptr":
+                return ("struct", p.v, ())
             if p.kind != "ptr" or p.v is None:
                 raise Refuse("dereference of a non-pointer")
             aid, off, shape = p.v
             return (aid, off, shape[1:] if shape else ())
         if k == "MemberExpr":
-            raise Refuse("struct member access (%s)" % n.get("name"))
+            base = n["inner"][0]
+            if n.get("isArrow"):
+                b = self.rvalue(base, st, env)
+                if b.kind != "sptr":
+                    raise Refuse("member access through a non-struct pointer (%s)" % n.get("name"))
+                sp = b.v
+            else:
+                loc = self.lvalue(base, st, env)
+                if loc[0] != "struct":
+                    raise Refuse("member access on a local struct (%s)" % n.get("name"))
+                sp = loc[1]
+            q = n["type"]["qualType"]
+            if "*" in q or "(" in q:
+                raise Refuse("pointer-valued struct member %s" % n.get("name"))
+            aid = self.struct_field(st, sp, n["name"], q)
+            shape = st.meta[aid]["flatshape"]
+            return (aid, 0, shape)
         raise Refuse("unsupported lvalue " + k)
 
     def global_var(self, did, st, env):
@@ -358,11 +418,15 @@ class Translator:
             sub = n["inner"][0]
             if ck == "LValueToRValue":
                 aid, off, shape = self.lvalue(sub, st, env)
+                if aid == "struct":
+                    raise Refuse("struct passed or copied by value")
                 if shape:
                     raise Refuse("rvalue of an array")
                 return self.load(st, aid, off)
             if ck == "ArrayToPointerDecay":
                 aid, off, shape = self.lvalue(sub, st, env)
+                if aid == "struct":
+                    raise Refuse("array of structs decays to pointer")
                 return Sym("ptr", (aid, off, shape[1:] if shape else ()))
             if ck == "FunctionToPointerDecay":
                 return Sym("func", sub.get("referencedDecl", {}).get("name"))
@@ -483,6 +547,8 @@ class Translator:
             return cur if n.get("isPostfix") else st.mem[loc[0]][loc[1]]
         if op == "&":
             aid, off, shape = self.lvalue(sub, st, env)
+            if aid == "struct":
+                return Sym("sptr", off)
             return Sym("ptr", (aid, off, shape))
         if op == "*":
             aid, off, shape = self.lvalue(n, st, env)
@@ -506,6 +572,11 @@ class Translator:
         raise Refuse("unsupported unary operator " + op)
 
     def arith(self, op, a, b, n):
+        if a.kind == "sptr" and b.kind == "int" and isinstance(b.v, int) and op in ("+", "-"):
+            pname, elem, pi, const = a.v
+            return Sym("sptr", (pname, elem + (b.v if op == "+" else -b.v), pi, const))
+        if a.kind == "sptr" or b.kind == "sptr":
+            raise Refuse("unsupported struct-pointer arithmetic")
         if a.kind == "ptr" or b.kind == "ptr":
             if op in ("+", "-") and a.kind == "ptr" and b.kind == "int" and isinstance(b.v, int) and a.v is not None:
                 aid, off, sh = a.v
@@ -568,7 +639,9 @@ class Translator:
             v = self.rvalue(r, st, env)
             if loc[2]:
                 raise Refuse("array assignment")
-            if v.kind == "ptr" or st.meta[loc[0]]["elem"] == "ptr":
+            if loc[0] == "struct":
+                raise Refuse("whole-struct assignment")
+            if v.kind in ("ptr", "sptr") or st.meta[loc[0]]["elem"] == "ptr":
                 st.mem[loc[0]][loc[1]] = v
                 return v
             self.store(st, loc[0], loc[1], v)
@@ -691,7 +764,10 @@ class Translator:
     def try_emit_call(self, fname, summ, argv, st):
         """emit `let r := callee args` when no output cell aliases an input cell of another parameter"""
         in_cells, out_cells = [], []
-        for (pi, idx, nm, kind) in summ["inputs"]:
+        if any(q.get("struct") for q in summ["params"]):
+            return None
+        for (po, idx, nm, kind, _cp) in summ["inputs"]:
+            pi = po[0]
             a = argv[pi]
             if summ["params"][pi]["isarray"]:
                 if a.kind != "ptr" or a.v is None:
@@ -699,7 +775,8 @@ class Translator:
                 in_cells.append((pi, (a.v[0], a.v[1] + idx)))
             else:
                 in_cells.append((pi, None))
-        for (pi, idx) in summ["outputs"]:
+        for (po, idx) in summ["outputs"]:
+            pi = po[0]
             a = argv[pi]
             if a.kind != "ptr" or a.v is None:
                 return None
@@ -714,7 +791,8 @@ class Translator:
         if len(set(outs)) != len(outs):
             return None
         argstrs = []
-        for (pi, idx, nm, kind) in summ["inputs"]:
+        for (po, idx, nm, kind, _cp) in summ["inputs"]:
+            pi = po[0]
             a = argv[pi]
             if summ["params"][pi]["isarray"]:
                 v = self.load(st, a.v[0], a.v[1] + idx)
@@ -746,7 +824,8 @@ class Translator:
         if summ["ret"]:
             ret = self.let(fname + "_ret", Sym(summ["ret"], projs[k]))
             k += 1
-        for (pi, idx) in summ["outputs"]:
+        for (po, idx) in summ["outputs"]:
+            pi = po[0]
             a = argv[pi]
             self.store(st, a.v[0], a.v[1] + idx, Sym(summ["params"][pi]["elem"], projs[k]))
             k += 1
@@ -771,7 +850,7 @@ class Translator:
             raise Refuse("arity mismatch calling %s" % fdecl["name"])
         for p, a in zip(params, argv):
             q = p["type"]["qualType"]
-            if "*" in q or "[" in q:
+            if a.kind == "sptr" or "*" in q or "[" in q:
                 aid = self.new_array(st, p.get("name", "arg"), "ptr")
                 st.mem[aid][0] = a
             else:
@@ -789,6 +868,9 @@ class Translator:
         # write the merged memory back into st (arrays that existed before the call)
         for aid in list(st.mem.keys()):
             if aid in res_st.mem:
+                st.mem[aid] = res_st.mem[aid]
+        for aid in res_st.mem:
+            if aid not in st.mem and st.meta.get(aid, {}).get("structfield"):
                 st.mem[aid] = res_st.mem[aid]
         if isinstance(res_val, str):  # every path ends in an error
             res_val = None if retkind is None else (Sym("int", 0) if retkind != "num" else num_lit_from_int(0))
@@ -815,7 +897,12 @@ class Translator:
     def merge_states(self, c, a, b, base):
         """cell-wise selection `if c then a else b` over the arrays that exist in `base`"""
         out = base.copy()
-        for aid in base.mem:
+        aids = list(base.mem.keys())
+        for x in (a, b):
+            for aid in x.mem:
+                if aid not in base.mem and base.meta.get(aid, {}).get("structfield") and aid not in aids:
+                    aids.append(aid)
+        for aid in aids:
             ca, cb = a.mem.get(aid, {}), b.mem.get(aid, {})
             cells = {}
             for idx in sorted(set(ca) | set(cb)):
@@ -1086,6 +1173,15 @@ class Translator:
             if "*" in q or "[" in q:
                 if q.count("*") > 1 or "(*" in q:
                     raise Refuse("parameter %s: pointer to pointer / function pointer" % nm)
+                sname = self.struct_name(q)
+                if sname:
+                    if nm in self.fix and self.fix[nm] is None:
+                        argv.append(Sym("ptr", None))
+                        pinfo.append({"name": nm, "isarray": True, "elem": "num", "const": True, "null": True})
+                        continue
+                    argv.append(Sym("sptr", (nm, 0, i, "const" in q)))
+                    pinfo.append({"name": nm, "isarray": True, "elem": "struct", "const": "const" in q, "struct": sname})
+                    continue
                 elem = self.elem_kind(q)
                 if nm in self.fix and self.fix[nm] is None:
                     argv.append(Sym("ptr", None))
@@ -1112,13 +1208,22 @@ class Translator:
         # outputs: written cells of non-const array params
         outputs = []
         for i, p in enumerate(pinfo):
+            if p.get("struct"):
+                if p["const"]:
+                    continue
+                fields = sorted((st.meta[a]["porder"], a) for a in self.struct_arrays.values() if st.meta[a]["porder"][0] == i)
+                for po, a in fields:
+                    for idx in sorted(st.mem.get(a, {}).keys()):
+                        outputs.append((po, idx, st.mem[a][idx], self.cpath(st.meta[a], idx), st.meta[a]["elem"],
+                                        "%s_%d" % (st.meta[a]["name"], idx)))
+                continue
             if p.get("isarray") and not p.get("null") and not p["const"]:
                 for idx in sorted(st.mem[p["aid"]].keys()):
-                    outputs.append((i, idx, st.mem[p["aid"]][idx]))
+                    outputs.append(((i,), idx, st.mem[p["aid"]][idx], "p%d[%d]" % (i, idx), p["elem"], "%s_%d" % (p["name"], idx)))
         self.inputs.sort(key=lambda t: (t[0], t[1]))
         retkind = None if ret.kind == "void" else ret.kind
         errval = st.mem[self.err_aid][0] if self.err_used else None
-        return {"err": errval, "params": pinfo, "inputs": [(a, b, c, d) for (a, b, c, d) in self.inputs],
+        return {"err": errval, "params": pinfo, "inputs": list(self.inputs),
                 "outputs": outputs, "ret": ret if retkind else None, "retkind": retkind, "lets": self.lets,
                 "calls": sorted(self.calls)}
 
@@ -1189,7 +1294,7 @@ class Registry:
             summ = {
                 "lean": "MjProof.Gen." + ln, "short": ln, "cname": k["name"], "file": k["file"],
                 "params": r["params"], "inputs": r["inputs"],
-                "outputs": [(pi, idx) for (pi, idx, _) in r["outputs"]],
+                "outputs": [(o[0], o[1]) for o in r["outputs"]],
                 "outvals": r["outputs"], "ret": r["retkind"], "retval": r["ret"], "lets": r["lets"],
                 "fix": k.get("fix") or {}, "static": k.get("static", False), "calls": r["calls"], "err": r["err"],
                 "sha256": func_sha(funcs[k["name"]], k["file"]),
@@ -1211,7 +1316,7 @@ class Registry:
                "set_option maxRecDepth 100000", "namespace MjProof.Gen", "open MjProof", ""]
         for ln in self.order:
             s = self.done[ln]
-            args = " ".join("(%s : %s)" % (nm, "α" if kind == "num" else "Int") for (_, _, nm, kind) in s["inputs"])
+            args = " ".join("(%s : %s)" % (i[2], "α" if i[3] == "num" else "Int") for i in s["inputs"])
             res_types, res_vals = [], []
             if s["err"] is not None:
                 res_types.append("Int")
@@ -1220,10 +1325,9 @@ class Registry:
                 res_types.append({"num": "α", "int": "Int", "bool": "Bool"}[s["ret"]])
                 rv = s["retval"]
                 res_vals.append(self_tolean(rv) if rv.kind != "bool" else "decide (%s)" % rv.v if not isinstance(rv.v, bool) else str(rv.v).lower())
-            for (pi, idx, v) in s["outvals"]:
-                elem = s["params"][pi]["elem"]
-                res_types.append("α" if elem == "num" else "Int")
-                res_vals.append(self_tolean(v))
+            for o in s["outvals"]:
+                res_types.append("α" if o[4] == "num" else "Int")
+                res_vals.append(self_tolean(o[2]))
             if not res_types:
                 continue
             out.append("/-- generated from `%s` in `%s` (sha256 of body %s) -/" % (s["cname"], s["file"], s["sha256"][:16]))
@@ -1249,8 +1353,8 @@ class Registry:
             if not (s["ret"] or s["outvals"]):
                 continue
             pats, args = [], []
-            for j, (_, _, nm, kind) in enumerate(s["inputs"]):
-                pats.append(".f a%d" % j if kind == "num" else ".i a%d" % j)
+            for j, i in enumerate(s["inputs"]):
+                pats.append(".f a%d" % j if i[3] == "num" else ".i a%d" % j)
                 args.append("a%d" % j)
             pat = "[" + ", ".join(pats) + "]"
             call = "%s (α := Float) %s" % (ln, " ".join(args))
@@ -1259,8 +1363,8 @@ class Registry:
                 kinds.append("err")
             if s["ret"]:
                 kinds.append(s["ret"])
-            for (pi, idx, v) in s["outvals"]:
-                kinds.append(s["params"][pi]["elem"])
+            for o in s["outvals"]:
+                kinds.append(o[4])
             n = len(kinds)
             if n == 1:
                 projs = ["r"]
@@ -1298,13 +1402,21 @@ class Registry:
             lines = ["  if (!strcmp(name, \"%s\")) {" % ln]
             # array sizes
             size = {}
-            for (pi, idx, nm, kind) in s["inputs"]:
-                if P[pi]["isarray"]:
-                    size[pi] = max(size.get(pi, 0), idx + 1)
-            for (pi, idx, v) in s["outvals"]:
-                size[pi] = max(size.get(pi, 0), idx + 1)
+            for i in s["inputs"]:
+                pi = i[0][0]
+                if P[pi].get("struct"):
+                    size[pi] = max(size.get(pi, 0), i[0][1] + 1)
+                elif P[pi]["isarray"]:
+                    size[pi] = max(size.get(pi, 0), i[1] + 1)
+            for o in s["outvals"]:
+                pi = o[0][0]
+                size[pi] = max(size.get(pi, 0), (o[0][1] if P[pi].get("struct") else o[1]) + 1)
             for pi, p in enumerate(P):
                 if p.get("null") or "fixed" in p:
+                    continue
+                if p.get("struct"):
+                    n = size.get(pi, 1)
+                    lines.append("    %s p%d[%d]; memset(p%d, 0, sizeof p%d);" % (p["struct"], pi, n + 1, pi, pi))
                     continue
                 cty = "double" if p["elem"] == "num" else "int"
                 if p["isarray"]:
@@ -1313,12 +1425,11 @@ class Registry:
                 else:
                     lines.append("    %s p%d = 0;" % (cty, pi))
             lines.append("    if (ntok != %d) { printf(\"bad-op\\n\"); return; }" % len(s["inputs"]))
-            for j, (pi, idx, nm, kind) in enumerate(s["inputs"]):
-                tgt = "p%d[%d]" % (pi, idx) if P[pi]["isarray"] else "p%d" % pi
-                if kind == "num":
-                    lines.append("    if (!getf(tok[%d], &%s)) { printf(\"bad-op\\n\"); return; }" % (j, tgt))
+            for j, i in enumerate(s["inputs"]):
+                if i[3] == "num":
+                    lines.append("    if (!getf(tok[%d], &%s)) { printf(\"bad-op\\n\"); return; }" % (j, i[4]))
                 else:
-                    lines.append("    if (!geti(tok[%d], &%s)) { printf(\"bad-op\\n\"); return; }" % (j, tgt))
+                    lines.append("    { int tmpi; if (!geti(tok[%d], &tmpi)) { printf(\"bad-op\\n\"); return; } %s = tmpi; }" % (j, i[4]))
             cargs = []
             for pi, p in enumerate(P):
                 if p.get("null"):
@@ -1336,8 +1447,8 @@ class Registry:
                 lines.append("    int r = %s; puti(r);" % call)
             else:
                 lines.append("    %s;" % call)
-            for (pi, idx, v) in s["outvals"]:
-                lines.append("    %s(p%d[%d]);" % ("putf" if P[pi]["elem"] == "num" else "puti", pi, idx))
+            for o in s["outvals"]:
+                lines.append("    %s(%s);" % ("putf" if o[4] == "num" else "puti", o[3]))
             lines.append("    printf(\"\\n\"); return;")
             lines.append("  }")
             body += lines
@@ -1376,8 +1487,8 @@ class Registry:
         for ln in self.order:
             s = self.done[ln]
             m["kernels"][ln] = {"c": s["cname"], "file": s["file"], "sha256": s["sha256"],
-                                "inputs": [[nm, kind] for (_, _, nm, kind) in s["inputs"]],
-                                "outputs": [["%s_%d" % (s["params"][pi]["name"], idx), s["params"][pi]["elem"]] for (pi, idx, _) in s["outvals"]],
+                                "inputs": [[i[2], i[3]] for i in s["inputs"]],
+                                "outputs": [[o[5], o[4]] for o in s["outvals"]],
                                 "ret": s["ret"], "nlets": len(s["lets"]), "calls": s["calls"], "fix": s["fix"]}
         return m
 
